@@ -37,7 +37,9 @@ Inductive case :=
 (* the same two for a SparseVector, with the low width w the crate chose (read from its serialization: the f64
    width rule is an oracle argument of Model/Sparse.v) *)
 | CIterS (w : N) (path : N) (dbg : bool) (s : src) (e : entry) (ref : list (N * N)) (runs : list (list call * list obs))
-| CExhS (w : N) (path : N) (dbg : bool) (s : src) (e : entry) (ref : list (N * N)) (outs : list (list obs)).
+| CExhS (w : N) (path : N) (dbg : bool) (s : src) (e : entry) (ref : list (N * N)) (outs : list (list obs))
+(* building the structure or opening / driving one of its iterators panicked outside a recorded call (class k) *)
+| CCrash (s : src) (k : N).
 
 Definition sp_of (path : N) : selpath := if path =? 0 then Pdep else Portable.
 Definition mode_of (dbg : bool) : mode := if dbg then Debug else Release.
@@ -215,6 +217,7 @@ Definition runs_of_case (c : case) : list (list call * list obs) :=
   match c with
   | CIter _ _ _ _ _ runs | CIterS _ _ _ _ _ _ runs => runs
   | CExh _ _ _ _ _ outs | CExhS _ _ _ _ _ _ outs => combine exh_calls outs
+  | CCrash _ _ => []
   end.
 
 Definition check (c : case) : N :=
@@ -231,6 +234,7 @@ Definition check (c : case) : N :=
       let runs := combine exh_calls outs in
       code (model_sparse (sp_of path) (mode_of dbg) w s e runs)
            (spec_ok s e ref runs && (N.of_nat (length outs) =? 256))
+  | CCrash _ _ => 3
   end.
 
 (* for replays: the reference by the spec, and per call string the spec's outputs *)
@@ -238,4 +242,5 @@ Definition explain (c : case) :=
   match c with
   | CIter _ _ s e ref _ | CExh _ _ s e ref _ | CIterS _ _ _ s e ref _ | CExhS _ _ _ s e ref _ =>
       (ref_of s e, map (fun r => (fst r, snd (dq_run ref (fst r)), snd r)) (runs_of_case c))
+  | CCrash _ _ => (None, [])
   end.
